@@ -1,5 +1,6 @@
 import EinxModel.Driver.Util
 import EinxModel.Driver.Registry
+import EinxModel.Driver.Update
 /-! Line-protocol driver: one JSON request per input line, one JSON answer per output line. -/
 open Lean Einx.Driver
 
@@ -7,6 +8,8 @@ def dispatch (j : Json) : R Json := do
   match ← strF j "kind" with
   | "ping" => pure (Json.mkObj [("pong", Json.bool true)])
   | "registry" => Einx.Driver.Registry.handle j
+  | "update_denote" | "update_lower" | "update_get" | "update_addr" | "np_put" | "np_ufunc_at" | "assignments" =>
+    Einx.Driver.Update.handle j
   | k => throw s!"unknown kind {k}"
 
 partial def loop (hin hout : IO.FS.Stream) : IO Unit := do
